@@ -239,6 +239,7 @@ func (o *Outcome) classifyErr() {
 // RunScenario executes a Call or Convert scenario once under the installed chooser.
 func RunScenario(s Scenario) (o Outcome) {
 	w := NewWorld()
+	w.BareUnsat = s.BareUnsat
 	o.World = w
 	o.Log = w.Log
 	verifrt.ResetBudget()
